@@ -238,7 +238,7 @@ def correspondence(ctx):
             c.disagreements.append({'input': line[:600], 'impl': '%s %s' % (pname, face), 'model': '%s %s' % (mname, want_face), 'note': 'region'})
             continue
         try:
-            eq = num_equal(mk, ser.ser(kexpr))
+            eq = num_equal(mk, ser.ser(kexpr), tol='1e-9' if sympy.sympify(kexpr).atoms(sympy.Float) else '1e-30')
         except Exception as ex:
             c.count('compare-failed:' + type(ex).__name__)
             eq = None
@@ -291,7 +291,7 @@ def correspondence(ctx):
                     ok = False
                     break
                 mk = loads_all(out[3:])[2]
-                eq = num_equal(mk, ser.ser(got[key]))
+                eq = num_equal(mk, ser.ser(got[key]), tol='1e-9' if sympy.sympify(got[key]).atoms(sympy.Float) else '1e-30')
                 if eq is False:
                     c.disagreements.append({'input': ln[:500], 'impl': str(got[key])[:400], 'model': dumps(mk)[:400], 'note': 'multi kernel'})
                     ok = False
@@ -479,6 +479,49 @@ def oracle(ctx, factor, seeds):
                        'integral over the %s of a %d-patch domain gives kernels on %s, expected one per member %s'
                        % (regname, len(envs), sorted(map(str, members)), sorted(map(str, expected))))
             o.count('multi:%s:%d' % (regname, len(envs)))
+        # a linear form over the interfaces: the one-sided pieces land on the two faces of each interface,
+        # each with the surface element of ITS OWN patch (seeded change C04-5 gave the plus face the minus
+        # patch's mapping)
+        from sympde.calculus import minus, plus
+        ifs = D.interfaces
+        ifs = list(ifs.args) if hasattr(ifs, 'args') and not hasattr(ifs, 'minus') else [ifs]
+        e_m, e_p = (x + 2) * v, 3 * v
+        o.evaluations += 1
+        try:
+            with time_limit(180):
+                ks = kernels(LinearForm(v, integral(D.interfaces, (x + 2) * minus(v) + 3 * plus(v))), D, D.logical_domain)
+        except Timeout:
+            o.count('impl-timeout')
+            continue
+        except Exception as ex:
+            o.fail('multi:interface:raised', 'LinearForm over the interfaces of a mapped %d-patch domain raised %s' % (len(envs), type(ex).__name__))
+            continue
+        byname = {env.logical_domain.name: (env, i) for i, env in enumerate(envs)}
+        seen = set()
+        for pname, face, kexpr, tg in ks:
+            if pname not in byname or face is None:
+                o.fail('multi:interface:target', 'an interface integral gave a kernel on %s %s' % (pname, face))
+                continue
+            env, i = byname[pname]
+            seen.add((pname, face))
+            kexpr = sympy.sympify(kexpr)
+            kexpr = kexpr.xreplace({s_: Symbol(s_.name[:-5], real=True) for s_ in kexpr.free_symbols if s_.name.endswith('_plus')})
+
+            class _E:
+                pass
+            pe = _E()
+            pe.dim, pe.coords, pe.mtype = 2, env.coords, env.mtype
+            pe.sf = {'h1': [v, v]}
+            pe.vf = {}
+            pe.concrete = env.concrete
+            check_kernel(ctx, o, pe, e_m if face[1] == 1 else e_p, v, face[0], face[1], kexpr,
+                         None, bounds=[(i, i + 1), (0, 1)])
+        want = {(envs[i].logical_domain.name, (0, 1)) for i in range(len(envs) - 1)} | \
+               {(envs[i + 1].logical_domain.name, (0, -1)) for i in range(len(envs) - 1)}
+        if seen != want:
+            o.fail('multi:interface:members:%d' % len(envs), 'the one-sided pieces of the interface integral are on %s, expected %s'
+                   % (sorted(map(str, seen)), sorted(map(str, want))))
+        o.count('multi:interface:%d' % len(envs))
     return o
 
 
